@@ -51,6 +51,32 @@ var targets = []target{
 	{"share/vss/pedersen/vss.go", "Response", "Hash", "responseHash", ""},
 	{"share/dkg/pedersen/pdkg_pipes.go", "", "genPub", "genPub", ""},
 	{"share/dkg/pedersen/pdkg.go", "pdkg", "Grouping", "grouping", ""},
+	// round 5 (review C): certification (fix 5814a9f), justification path, QUAL
+	{"share/vss/pedersen/vss.go", "Verifier", "DealCertified", "verifierDealCertified", ""},
+	{"share/vss/pedersen/vss.go", "aggregator", "DealCertified", "aggDealCertified", ""},
+	{"share/vss/pedersen/vss.go", "aggregator", "EnoughApprovals", "enoughApprovals", ""},
+	{"share/vss/pedersen/vss.go", "Verifier", "Deal", "verifierDeal", ""},
+	{"share/vss/pedersen/vss.go", "aggregator", "verifyJustification", "verifyJustification", ""},
+	{"share/vss/pedersen/vss.go", "Verifier", "ProcessJustification", "verifierProcessJustification", ""},
+	{"share/vss/pedersen/vss.go", "Verifier", "UnsafeSetResponseDKG", "unsafeSetResponseDKG", ""},
+	{"share/vss/pedersen/vss.go", "", "newAggregator", "newAggregator", ""},
+	{"share/dkg/pedersen/dkg.go", "DistKeyGenerator", "Certified", "dkgCertified", ""},
+	{"share/dkg/pedersen/dkg.go", "DistKeyGenerator", "QUAL", "dkgQUAL", ""},
+	{"share/dkg/pedersen/dkg.go", "DistKeyGenerator", "qualIter", "dkgQualIter", ""},
+	{"share/dkg/pedersen/dkg.go", "DistKeyGenerator", "ProcessJustification", "dkgProcessJustification", ""},
+	{"share/dkg/pedersen/dkg.go", "DistKeyGenerator", "Deals", "dkgDeals", ""},
+	// the sealing side and the key derivation (C08: who can open a deal)
+	{"share/vss/pedersen/dh.go", "", "dhExchange", "dhExchange", ""},
+	{"share/vss/pedersen/dh.go", "", "newAEAD", "newAEAD", ""},
+	{"share/vss/pedersen/dh.go", "", "context", "hkdfContext", ""},
+	{"share/vss/pedersen/vss.go", "Dealer", "EncryptedDeal", "encryptedDeal", ""},
+	{"share/vss/pedersen/vss.go", "", "NewDealer", "newDealer", ""},
+	{"share/vss/pedersen/vss.go", "", "NewVerifier", "newVerifier", ""},
+	{"share/vss/pedersen/vss.go", "", "findPub", "findPub", ""},
+	// the whole of pdkg.Loop (watchdog / expire closures included), handleRequest, channel sizes (C04)
+	{"share/dkg/pedersen/pdkg.go", "pdkg", "Loop", "loopWhole", ""},
+	{"share/dkg/pedersen/pdkg.go", "", "handleRequest", "handleRequest", ""},
+	{"share/dkg/pedersen/pdkg.go", "", "NewPDKG", "newPDKG", ""},
 }
 
 // structs lists the struct types whose field list (names and types, in order) is extracted: the state a
